@@ -11,12 +11,13 @@ PROVED: `typeOf_sound_partial` — the same statement for the expressions of `Ce
 (Lemmas/TypecheckDefs.lean), for BOTH modes:
     literals (incl. entity uids), `principal` `action` `resource` `context`, `&&`, `||`, `!`, `if` (at least one branch
     syntactically of boolean / long / string kind, so that the least upper bound is one of the branch types or Bool),
-    unary `-`, `+ - *`, `has` and `.` on records and on entities (required / optional attributes, capabilities from
+    unary `-`, `+ - *`, `==` (incl. the `False` typing of disjoint entity types and the singleton typing of literal
+    operands), `like`, `is`, `has` and `.` on records and on entities (required / optional attributes, capabilities from
     `has`, entities absent from the store: `has` on an entity is typed Bool — not True — unless guarded).
 NOT in the proved fragment (covered by the differential run against Rust and by the implementation-level soundness
-search of harness/src/c03.rs only): `==`, `< <=`, `in`, `is`, `like`, `isEmpty`, `contains*`, `hasTag`/`getTag`,
-set / record literals, extension calls, template slots, unknowns; `if` whose two branches are both of
-set / record / entity kind.  `strict_implies_permissive` is NOT proved: both modes are modelled and compared with Rust,
+search of harness/src/c03.rs only): `< <=`, `in`, `isEmpty`, `contains*`, `hasTag`/`getTag`, set / record literals,
+extension calls, template slots, unknowns; `if` whose two branches are both of set / record / entity kind.
+`strict_implies_permissive` is NOT proved: both modes are modelled and compared with Rust,
 and the implication is checked on the implementation for every generated policy.
 
 The invariant has the two clauses the Rust rules need (DESIGN.md App. E): a capability *holds* if its guard
@@ -141,6 +142,13 @@ def guardIf : Expr := .ite (.hasAttr context "flag") (.getAttr context "flag") (
 /-- `principal has age && (principal.age + principal.prefs.n) has …` simplified: `principal has age && !(context has flag && context.flag)` -/
 def guardNested : Expr :=
   .and (.hasAttr principal "age") (.unaryApp .not (.and (.hasAttr context "flag") (.getAttr context "flag")))
+/-- `principal has age && principal.age + 1 == 19` -/
+def guardArith : Expr :=
+  .and (.hasAttr principal "age") (.binaryApp .eq (.binaryApp .add (.getAttr principal "age") (.lit (.int 1))) (.lit (.int 19)))
+/-- `principal.prefs has theme && principal.prefs.theme like "d*" && principal is User` -/
+def guardRecord : Expr :=
+  .and (.hasAttr (.getAttr principal "prefs") "theme")
+    (.and (.like (.getAttr (.getAttr principal "prefs") "theme") [.char 'd', .star]) (.is principal "User"))
 /-- near misses -/
 def missOr : Expr := .or (.hasAttr principal "active") (.getAttr principal "active")
 def missElse : Expr := .ite (.hasAttr principal "active") (.lit (.bool true)) (.getAttr principal "active")
@@ -152,6 +160,10 @@ example : InFragment guardAnd = true ∧ InFragment guardIf = true ∧ InFragmen
 example : checkEnv .strict exSchema exEnv guardAnd = some .bool := by decide +kernel
 example : checkEnv .strict exSchema exEnv guardIf = some .bool := by decide +kernel
 example : checkEnv .strict exSchema exEnv guardNested = some .bool := by decide +kernel
+example : InFragment guardArith = true ∧ InFragment guardRecord = true := by decide
+example : checkEnv .strict exSchema exEnv guardArith = some .bool := by decide +kernel
+example : checkEnv .strict exSchema exEnv guardRecord = some .bool := by decide +kernel
+example : checkEnv .strict exSchema exEnv (.binaryApp .eq (.lit (.int 1)) (.lit (.int 2))) = some .ff := by decide +kernel
 example : checkEnv .permissive exSchema exEnv guardAnd = some .bool := by decide +kernel
 example : checkEnv .strict exSchema exEnv missOr = some .fail := by decide +kernel
 example : checkEnv .strict exSchema exEnv missElse = some .fail := by decide +kernel
